@@ -1,3 +1,4 @@
+use super::field_utils::parse_party_identifier;
 use super::swift_utils::{parse_bic, parse_swift_chars};
 use crate::errors::ParseError;
 use crate::traits::SwiftField;
@@ -62,8 +63,8 @@ impl SwiftField for Field58A {
         let mut bic_line_idx = 0;
 
         // Check for optional party identifier on first line
-        if !lines.is_empty() && lines[0].starts_with('/') {
-            party_identifier = Some(lines[0][1..].to_string()); // Strip the leading / (format prefix)
+        if let Some(party_id) = parse_party_identifier(lines[0])? {
+            party_identifier = Some(party_id); // Stored without the leading / (format prefix)
             bic_line_idx = 1;
         }
 
@@ -74,6 +75,14 @@ impl SwiftField for Field58A {
             });
         }
 
+        if lines.len() > bic_line_idx + 1 {
+            return Err(ParseError::InvalidFormat {
+                message: format!(
+                    "Field 58A has {} line(s) after the BIC",
+                    lines.len() - bic_line_idx - 1
+                ),
+            });
+        }
         let bic = parse_bic(lines[bic_line_idx])?;
 
         Ok(Field58A {
@@ -108,10 +117,10 @@ impl SwiftField for Field58D {
         // Party identifier can be on its own line (starting with /)
         // If first line is short and there are more lines, it's likely a party identifier
         if let Some(first_line) = lines.first() {
-            // Party identifier should start with / and be short (≤35 chars to account for the /)
-            if first_line.starts_with('/') && first_line.len() <= 35 && lines.len() > 1 {
-                // Entire first line is party identifier (strip the leading / format prefix)
-                party_identifier = Some(first_line[1..].to_string());
+            // Party identifier starts with / and is at most /1!a/34x = 37 characters
+            if first_line.starts_with('/') && first_line.len() <= 37 && lines.len() > 1 {
+                // Entire first line is party identifier (stored without the leading / format prefix)
+                party_identifier = parse_party_identifier(first_line)?;
                 lines.remove(0);
             }
         }
